@@ -255,7 +255,7 @@ func valueClassOf(e snap.Elem, t gen.ElemType) string {
 		max := -(min + 1)
 		switch {
 		case e.I > 1<<53 || (e.I < -(1<<53) && e.I != min):
-			return "int:|x|>2^53"
+			return "int:beyond-2^53"
 		case e.I == min:
 			return "int:min"
 		case e.I == max:
